@@ -135,6 +135,13 @@ inductive Res where
   | fuelExhausted (out : List (Int × Int))
   | signumOfZero (out : List (Int × Int))
 
+/-- the trace a `Res` carries (empty for `noBoxHit`) -/
+def Res.trace : Res → List (Int × Int)
+  | .noBoxHit => []
+  | .done out => out
+  | .fuelExhausted out => out
+  | .signumOfZero out => out
+
 def walkLoop (step : St → Step) : Nat → St → Res
   | 0, s => .fuelExhausted s.out
   | n + 1, s =>
